@@ -526,6 +526,21 @@ pub fn prepare_room_with_history(
 ) -> Result<bool> {
     let mut need_update = false;
     let mut room = room.clone();
+    if !room_node.node.eq(&old_room_node.node) {
+        if old_room_node.node.mdate < room_node.node.mdate {
+            //a newer room row must be a sys.Room row signed by an admin
+            if !room_node.node._entity.eq(ROOM_ENT_SHORT)
+                || !room.is_admin(&room_node.node.verifying_key, room_node.node.mdate)
+            {
+                return Err(Error::InvalidNode(
+                    "RoomNode room mutation not authorised".to_string(),
+                ));
+            }
+        } else {
+            //an older one (a peer that lags behind) is replaced by the stored row
+            room_node.node = old_room_node.node.clone();
+        }
+    }
     room_node.node._local_id = old_room_node.node._local_id;
 
     //ensure that existing admin edges exists in the room_node
@@ -919,6 +934,16 @@ fn prepare_new_auth(room: &Room, new_auth: &AuthorisationNode) -> Result<()> {
         if !room.is_admin(&new_right.node.verifying_key, new_right.node.mdate) {
             return Err(Error::InvalidNode(
                 "RoomNode Authorisation new Right is not authorised".to_string(),
+            ));
+        }
+    }
+    for new_user_admin in &new_auth.user_admin_nodes {
+        if !room.is_admin(
+            &new_user_admin.node.verifying_key,
+            new_user_admin.node.mdate,
+        ) {
+            return Err(Error::InvalidNode(
+                "RoomNode Authorisation new User Administrator is not authorised".to_string(),
             ));
         }
     }
